@@ -45,6 +45,10 @@ def make_case(seed, idx, tier):
         # the top of numpy's seed range is legal too: one CMA-ES deme sprouted in metaepoch 1 (its seed is random_seed + 1)
         prof.update({"n_levels": 2, "leaf": ["cma", "cma_warm", "cma_stds"][(idx // 12) % 3], "sprout": "simple", "level_limit": 1, "lscs": ["dontstop"], "gsc": "melimit",
                      "root": ["sea", "de", "shade", "sobol"][(idx // 12) % 4], "fams": ["rastrigin", "sphere"]})
+    if idx % 8 == 5:
+        # adaptive mutation whose width is handed over as an array: the step is added for every metaepoch since the last sprout
+        prof.update({"n_levels": 2, "root": "sea_adapt", "leaf": ["sea", "de", "cma"][(idx // 8) % 3], "sprout": "simple", "level_limit": 1, "lscs": ["dontstop"], "gsc": "melimit",
+                     "stacks": False, "fams": ["rastrigin", "sphere"]})
     multi = idx % 8 == 3
     if multi:
         # several demes sprouted onto one level in the same metaepoch, on a level whose engine consumes the seed it is handed
@@ -55,8 +59,11 @@ def make_case(seed, idx, tier):
         d["sprout"] = {"k": "custom", "gen": {"k": "nbc", "df": 1.0, "trunc": 1.0}, "dfilters": [{"k": "demelimit", "n": 3}], "tfilters": [{"k": "levellimit", "n": 4}], "ll": 4}
         d["gsc"] = {"k": "melimit", "n": 5}
         d["force_subprocess"] = True
+    if idx % 8 == 5:
+        d["gsc"] = {"k": "melimit", "n": 6}
+        d["sprout"]["far"] = 1e-9
     for lv in d["levels"]:
-        if lv["engine"] == "sea_adapt" and rng.random() < 0.6:
+        if lv["engine"] == "sea_adapt" and (rng.random() < 0.6 or idx % 8 == 5):
             lv["mutation_std_array"] = len(d["box"]["bounds"])  # per-dimension width given as an ndarray
     d["options"]["random_seed"] = rng.randint(0, 10**6) if idx % 6 else 0  # 0 is a legal seed
     if idx % 12 == 5:
